@@ -206,7 +206,10 @@ func c15(p *core.Prog, r *core.Report) {
 			// the "selected" path: block guarded by canChoosePeer true
 			miss := core.ReachAvoiding(f, pops[0], func(i ssa.Instruction) bool {
 				// reaching the loop header again or leaving the loop without selection or append
-				if fsel := factsAt(i.Block()); fsel.hasBool(func(v ssa.Value) bool { c, ok := v.(*ssa.Call); return ok && c.Call.StaticCallee() != nil && c.Call.StaticCallee().Parent() == f }, true) {
+				if fsel := factsAt(i.Block()); fsel.hasBool(func(v ssa.Value) bool {
+					c, ok := v.(*ssa.Call)
+					return ok && c.Call.StaticCallee() != nil && c.Call.StaticCallee().Parent() == f
+				}, true) {
 					return false
 				}
 				_, isPop := core.IsCall(i, "peerHeap.popPeer")
@@ -221,7 +224,7 @@ func c15(p *core.Prog, r *core.Report) {
 					return a.Succs[0] == b
 				}
 				return false
-			}, )
+			})
 			if miss.Found {
 				okCollect = false
 			}
@@ -870,7 +873,10 @@ func refusedConnIsClosed(p *core.Prog, r *core.Report, rule string) {
 			if !factsAt(b).hasBool(func(v ssa.Value) bool { return v == ssa.Value(av) }, false) || len(b.Preds) != 1 {
 				continue
 			}
-			isClose := func(i ssa.Instruction) bool { _, is := core.IsCall(i, "Connection.close", "Connection.Close"); return is }
+			isClose := func(i ssa.Instruction) bool {
+				_, is := core.IsCall(i, "Connection.close", "Connection.Close")
+				return is
+			}
 			res := core.ReachAvoiding(f, b.Instrs[0], core.IsReturn, isClose, nil)
 			ok = !res.Found || isClose(b.Instrs[0])
 			how = "a refused connection is left open and untracked: " + p.TrailString(res)
